@@ -199,6 +199,10 @@ pub fn skesk_v6_open(body: &[u8], pass: &[u8]) -> Option<Vec<u8>> {
         return None;
     }
     let nl = aead_nonce_len(aead)?;
+    // the count octet covers cipher, AEAD mode, S2K length octet, S2K specifier and IV (RFC 9580 5.3.2)
+    if *body.get(1)? as usize != 3 + s2k_len + nl {
+        return None;
+    }
     let iv = body.get(5 + s2k_len..5 + s2k_len + nl)?;
     let ct = body.get(5 + s2k_len + nl..)?;
     let (_, ks) = sym_params(sym)?;
